@@ -970,4 +970,51 @@ func round9Facts(s *src, f *facts) {
 		}
 	}
 	f.b("hooksNeverWritten", written == "", written)
+
+	// the responder (the goroutine that runs the handler through utils.Call and writes the response): every `return`
+	// in it directly follows a `setErr(…)` — there is no way out of the responder that neither answers the request nor
+	// ends the link (whatever the handler returned: an error that wraps context.Canceled is a message like any other)
+	reports, nret := false, 0
+	if lm := s.funcDecl("Registry", "LinkMessage"); lm != nil {
+		for _, c := range all[*ast.CallExpr](lm.Body, nil) {
+			if s.str(c.Fun) != "utils.Call" {
+				continue
+			}
+			fl := enclosing[*ast.FuncLit](lm.Body, c)
+			if fl == nil {
+				continue
+			}
+			reports = true
+			check := func(list []ast.Stmt) {
+				for i, st := range list {
+					if _, ok := st.(*ast.ReturnStmt); !ok {
+						continue
+					}
+					nret++
+					okPrev := false
+					if i > 0 {
+						if es, ok := list[i-1].(*ast.ExprStmt); ok {
+							if ce, ok := es.X.(*ast.CallExpr); ok && s.calleeIs(ce, "setErr") {
+								okPrev = true
+							}
+						}
+					}
+					if !okPrev {
+						reports = false
+					}
+				}
+			}
+			for _, b := range allShallow[*ast.BlockStmt](fl, nil) {
+				check(b.List)
+			}
+			for _, cc := range allShallow[*ast.CaseClause](fl, nil) {
+				check(cc.Body)
+			}
+			for _, cc := range allShallow[*ast.CommClause](fl, nil) {
+				check(cc.Body)
+			}
+			break
+		}
+	}
+	f.b("respEveryReturnReports", reports && nret >= 5, fmt.Sprint(nret, " returns"))
 }
